@@ -9,22 +9,39 @@ variable {cmp : Nat → Nat → Int}
 
 local macro "triv" : tactic => `(tactic| first | trivial | rfl)
 
-/-! ### ledger helpers -/
-theorem freeN_spec (n : Nat) (m : Mem) (h : n ≤ m.live) :
-    (freeN m n).live = m.live - n ∧ (freeN m n).fault = m.fault := by
+/-! ### ledger helpers (for the allocator triple the table was built with) -/
+theorem allocT_true (m : Mem) (tr : Triple) (h : (m.allocT tr).1 = true) :
+    liveOf (m.allocT tr).2 tr = liveOf m tr + 1 ∧ (m.allocT tr).2.fault = m.fault := by
+  cases tr with
+  | conf => have := Mem.alloc_fst_true m h; exact ⟨this.1, this.2.1⟩
+  | libc => exact ⟨rfl, rfl⟩
+
+theorem allocT_false (m : Mem) (tr : Triple) (h : (m.allocT tr).1 = false) :
+    liveOf (m.allocT tr).2 tr = liveOf m tr ∧ (m.allocT tr).2.fault = m.fault := by
+  cases tr with
+  | conf => have := Mem.alloc_fst_false m h; exact ⟨this.1, this.2.1⟩
+  | libc => simp [Mem.allocT] at h
+
+theorem freeT_spec (m : Mem) (tr : Triple) (h : 0 < liveOf m tr) :
+    liveOf (m.freeT tr) tr = liveOf m tr - 1 ∧ (m.freeT tr).fault = m.fault := by
+  cases tr with
+  | conf =>
+    have h0 : m.live ≠ 0 := by simp only [liveOf] at h; omega
+    simp [Mem.free, h0, liveOf]
+  | libc =>
+    have h0 : m.liveLibc ≠ 0 := by simp only [liveOf] at h; omega
+    simp [Mem.freeT, h0, liveOf]
+
+theorem freeN_spec (n : Nat) (m : Mem) (tr : Triple) (h : n ≤ liveOf m tr) :
+    liveOf (freeN m tr n) tr = liveOf m tr - n ∧ (freeN m tr n).fault = m.fault := by
   induction n generalizing m with
   | zero => simp [freeN]
   | succ n ih =>
-    have h0 : m.live ≠ 0 := by omega
-    have hf : m.free.live = m.live - 1 ∧ m.free.fault = m.fault := by simp [Mem.free, h0]
-    have := ih m.free (by omega)
+    have hf := freeT_spec m tr (by omega)
+    have := ih (m.freeT tr) (by omega)
     simp only [freeN]
     rw [this.1, this.2, hf.1, hf.2]
     exact ⟨by omega, rfl⟩
-
-theorem free_spec (m : Mem) (h : 0 < m.live) : m.free.live = m.live - 1 ∧ m.free.fault = m.fault := by
-  have h0 : m.live ≠ 0 := by omega
-  simp [Mem.free, h0]
 
 /-! ### facts packed in the invariant -/
 theorem Inv.size_eq {t : TreeTable} (h : t.Inv cmp) : t.size = t.abs.length := by
@@ -53,13 +70,14 @@ theorem lookup_cmps {t : TreeTable} (h : t.Inv cmp) (k : Nat) :
 
 /-! ### `cc_treetable_add` -/
 theorem add_spec (ho : TotalOrder cmp) {t : TreeTable} (h : t.Inv cmp) (k v : Nat) (m : Mem) :
-    (t.add cmp k v m).1 = (if (!contains t.abs k && !m.alloc.1) then Stat.errAlloc else .ok) ∧
-    (t.add cmp k v m).2.1.abs = (if (!contains t.abs k && !m.alloc.1) then t.abs else insert cmp t.abs k v) ∧
+    (t.add cmp k v m).1 = (if (!contains t.abs k && !(m.allocT t.triple).1) then Stat.errAlloc else .ok) ∧
+    (t.add cmp k v m).2.1.abs = (if (!contains t.abs k && !(m.allocT t.triple).1) then t.abs else insert cmp t.abs k v) ∧
     (t.add cmp k v m).2.1.Inv cmp ∧
-    ((!contains t.abs k && !m.alloc.1) = true → (t.add cmp k v m).2.1 = t) ∧
+    ((!contains t.abs k && !(m.allocT t.triple).1) = true → (t.add cmp k v m).2.1 = t) ∧
     (t.add cmp k v m).2.2.1.fault = m.fault ∧
-    (t.add cmp k v m).2.2.1.live + t.size = m.live + (t.add cmp k v m).2.1.size ∧
-    (t.add cmp k v m).2.2.2 ≤ 2 * Nat.log2 (t.size + 1) + 1 := by
+    liveOf (t.add cmp k v m).2.2.1 t.triple + t.size = liveOf m t.triple + (t.add cmp k v m).2.1.size ∧
+    (t.add cmp k v m).2.2.2 ≤ 2 * Nat.log2 (t.size + 1) + 1 ∧
+    (t.add cmp k v m).2.1.triple = t.triple := by
   obtain ⟨hb, hrb, hsz⟩ := h
   have hn := ins_new ho k v t.root hb
   have hl := toList_ins ho k v t.root hb
@@ -72,20 +90,21 @@ theorem add_spec (ho : TotalOrder cmp) {t : TreeTable} (h : t.Inv cmp) (k v : Na
   · -- new key
     rw [hc] at hn hlen
     simp only [Bool.not_false] at hn
-    cases ha : m.alloc.1
-    · have := Mem.alloc_fst_false m ha
+    cases ha : (m.allocT t.triple).1
+    · have := allocT_false m t.triple ha
       simp only [hn, ha, Bool.not_false, Bool.not_true, Bool.and_self, Bool.false_eq_true, ↓reduceIte]
-      refine ⟨?_, ?_, ?_, ?_, ?_, ?_, ?_⟩
+      refine ⟨?_, ?_, ?_, ?_, ?_, ?_, ?_, ?_⟩
       · trivial
       · trivial
       · exact ⟨hb, hrb, hsz⟩
       · intro; trivial
-      · exact this.2.1
+      · exact this.2
       · rw [this.1]
       · omega
-    · have := Mem.alloc_fst_true m ha
+      · trivial
+    · have := allocT_true m t.triple ha
       simp only [hn, ha, Bool.not_false, Bool.not_true, Bool.and_false, Bool.false_eq_true, ↓reduceIte]
-      refine ⟨?_, ?_, ?_, ?_, ?_, ?_, ?_⟩
+      refine ⟨?_, ?_, ?_, ?_, ?_, ?_, ?_, ?_⟩
       · trivial
       · rw [toList_blacken, hl]
       · refine ⟨?_, RB_insert k v t.root hrb, ?_⟩
@@ -93,14 +112,15 @@ theorem add_spec (ho : TotalOrder cmp) {t : TreeTable} (h : t.Inv cmp) (k v : Na
         · show t.size + 1 = _
           rw [size_eq_length, toList_blacken, hl, hlen, hsz, size_eq_length]; simp
       · exact False.elim
-      · exact this.2.1
+      · exact this.2
       · rw [this.1]; omega
       · split <;> omega
+      · trivial
   · -- existing key: the value is replaced
     rw [hc] at hn hlen
     simp only [Bool.not_true] at hn
     simp only [hn, Bool.not_false, Bool.not_true, Bool.false_and, Bool.false_eq_true, ↓reduceIte]
-    refine ⟨?_, ?_, ?_, ?_, ?_, ?_, ?_⟩
+    refine ⟨?_, ?_, ?_, ?_, ?_, ?_, ?_, ?_⟩
     · trivial
     · exact hl
     · refine ⟨?_, RB_replace k v t.root hrb hn, ?_⟩
@@ -111,17 +131,19 @@ theorem add_spec (ho : TotalOrder cmp) {t : TreeTable} (h : t.Inv cmp) (k v : Na
     · trivial
     · trivial
     · omega
+    · trivial
 
 /-! ### `cc_treetable_remove` -/
 theorem removeNode_spec (ho : TotalOrder cmp) {t : TreeTable} (h : t.Inv cmp) (k : Nat) (m : Mem)
-    (hk : contains t.abs k = true) (hm : 0 < m.live) :
+    (hk : contains t.abs k = true) (hm : 0 < liveOf m t.triple) :
     (t.removeNode cmp k m).1.abs = erase t.abs k ∧ (t.removeNode cmp k m).1.Inv cmp ∧
     (t.removeNode cmp k m).2.fault = m.fault ∧
-    (t.removeNode cmp k m).2.live + t.size = m.live + (t.removeNode cmp k m).1.size := by
+    liveOf (t.removeNode cmp k m).2 t.triple + t.size = liveOf m t.triple + (t.removeNode cmp k m).1.size ∧
+    (t.removeNode cmp k m).1.triple = t.triple := by
   obtain ⟨hb, hrb, hsz⟩ := h
   have hd := toList_del ho k t.root hb
   have hlen := length_erase ho (l := t.root.toList) hb k
-  have hf := free_spec m hm
+  have hf := freeT_spec m t.triple hm
   unfold abs at hk
   rw [hk] at hlen
   simp only [if_true] at hlen
@@ -131,17 +153,18 @@ theorem removeNode_spec (ho : TotalOrder cmp) {t : TreeTable} (h : t.Inv cmp) (k
   · show Sorted cmp _; rw [toList_blacken, hd]; exact sorted_erase hb k
   · show t.size - 1 = _
     rw [size_eq_length, toList_blacken, hd]; omega
-  · show m.free.live + t.size = m.live + (t.size - 1)
+  · refine ⟨?_, rfl⟩
+    show liveOf (m.freeT t.triple) t.triple + t.size = liveOf m t.triple + (t.size - 1)
     rw [hf.1]; omega
 
 theorem remove_spec (ho : TotalOrder cmp) {t : TreeTable} (h : t.Inv cmp) (k : Nat) (m : Mem)
-    (hm : 0 < m.live) :
+    (hm : 0 < liveOf m t.triple) :
     (t.remove cmp k m).1 = (opRemove t.abs k).1 ∧ (t.remove cmp k m).2.1 = (opRemove t.abs k).2.1 ∧
     (t.remove cmp k m).2.2.1.abs = (opRemove t.abs k).2.2 ∧ (t.remove cmp k m).2.2.1.Inv cmp ∧
     ((t.remove cmp k m).1 ≠ .ok → (t.remove cmp k m).2.2.1 = t ∧ (t.remove cmp k m).2.2.2.1 = m) ∧
     (t.remove cmp k m).2.2.2.1.fault = m.fault ∧
-    (t.remove cmp k m).2.2.2.1.live + t.size = m.live + (t.remove cmp k m).2.2.1.size ∧
-    (t.remove cmp k m).2.2.2.2 ≤ 2 * Nat.log2 (t.size + 1) := by
+    liveOf (t.remove cmp k m).2.2.2.1 t.triple + t.size = liveOf m t.triple + (t.remove cmp k m).2.2.1.size ∧
+    (t.remove cmp k m).2.2.2.2 ≤ 2 * Nat.log2 (t.size + 1) ∧ (t.remove cmp k m).2.2.1.triple = t.triple := by
   have hl := lookup_refines ho h k
   have hc := lookup_cmps h k
   unfold remove opRemove
@@ -150,14 +173,14 @@ theorem remove_spec (ho : TotalOrder cmp) {t : TreeTable} (h : t.Inv cmp) (k : N
     rw [heq] at hl hc
     simp only at hl hc
     rw [← hl]
-    exact ⟨rfl, rfl, rfl, h, fun _ => ⟨rfl, rfl⟩, rfl, rfl, hc⟩
+    exact ⟨rfl, rfl, rfl, h, fun _ => ⟨rfl, rfl⟩, rfl, rfl, hc, rfl⟩
   · rename_i v n heq
     rw [heq] at hl hc
     simp only at hl hc
     rw [← hl]
     have hk : contains t.abs k = true := by rw [contains_iff_lookup, ← hl]; rfl
-    obtain ⟨a, b, c, d⟩ := removeNode_spec ho h k m hk hm
-    exact ⟨rfl, rfl, a, b, fun x => absurd rfl x, c, d, hc⟩
+    obtain ⟨a, b, c, d, e⟩ := removeNode_spec ho h k m hk hm
+    exact ⟨rfl, rfl, a, b, fun x => absurd rfl x, c, d, hc, e⟩
 
 /-! ### lookups -/
 theorem get_spec (ho : TotalOrder cmp) {t : TreeTable} (h : t.Inv cmp) (k : Nat) :
@@ -215,17 +238,18 @@ theorem lastValue_spec (t : TreeTable) : t.lastValue = opLastValue t.abs := by
   unfold lastValue opLastValue last abs; rw [maxEntry_eq]; cases t.root.toList.getLast? <;> rfl
 
 /-! ### `remove_first`, `remove_last`, `remove_all` -/
-theorem removeFirst_spec {t : TreeTable} (h : t.Inv cmp) (m : Mem) (hm : 0 < m.live) :
+theorem removeFirst_spec {t : TreeTable} (h : t.Inv cmp) (m : Mem) (hm : 0 < liveOf m t.triple) :
     (t.removeFirst m).1 = (opRemoveFirst t.abs).1 ∧ (t.removeFirst m).2.1 = (opRemoveFirst t.abs).2.1 ∧
     (t.removeFirst m).2.2.1.abs = (opRemoveFirst t.abs).2.2 ∧ (t.removeFirst m).2.2.1.Inv cmp ∧
     ((t.removeFirst m).1 ≠ .ok → (t.removeFirst m).2.2.1 = t ∧ (t.removeFirst m).2.2.2 = m) ∧
     (t.removeFirst m).2.2.2.fault = m.fault ∧
-    (t.removeFirst m).2.2.2.live + t.size = m.live + (t.removeFirst m).2.2.1.size := by
+    liveOf (t.removeFirst m).2.2.2 t.triple + t.size = liveOf m t.triple + (t.removeFirst m).2.2.1.size ∧
+    (t.removeFirst m).2.2.1.triple = t.triple := by
   have hsz := h.size_eq
   obtain ⟨hb, hrb, hsz0⟩ := h
   have hmin := minEntry_eq t.root
   have hd := toList_delMin t.root
-  have hf := free_spec m hm
+  have hf := freeT_spec m t.triple hm
   unfold abs at hsz
   unfold removeFirst opRemoveFirst abs
   cases hl : t.root.toList with
@@ -233,7 +257,7 @@ theorem removeFirst_spec {t : TreeTable} (h : t.Inv cmp) (m : Mem) (hm : 0 < m.l
     rw [hl] at hsz
     simp only [List.length_nil] at hsz
     simp only [hsz, if_true]
-    exact ⟨by triv, by triv, hl, ⟨hb, hrb, hsz0⟩, fun _ => ⟨by triv, by triv⟩, by triv, by triv⟩
+    exact ⟨by triv, by triv, hl, ⟨hb, hrb, hsz0⟩, fun _ => ⟨by triv, by triv⟩, by triv, by triv, by triv⟩
   | cons e rest =>
     rw [hl] at hsz hmin hd
     simp only [List.length_cons] at hsz
@@ -242,19 +266,21 @@ theorem removeFirst_spec {t : TreeTable} (h : t.Inv cmp) (m : Mem) (hm : 0 < m.l
     refine ⟨by triv, by triv, by rw [toList_blacken, hd]; rfl, ⟨?_, RB_delMin t.root hrb, ?_⟩, fun x => absurd rfl x, hf.2, ?_⟩
     · show Sorted cmp _; rw [toList_blacken, hd]; have := sorted_tail hb; rw [hl] at this; exact this
     · show t.size - 1 = _; rw [size_eq_length, toList_blacken, hd]; simp; omega
-    · show m.free.live + t.size = m.live + (t.size - 1); rw [hf.1]; omega
+    · refine ⟨?_, by triv⟩
+      show liveOf (m.freeT t.triple) t.triple + t.size = liveOf m t.triple + (t.size - 1); rw [hf.1]; omega
 
-theorem removeLast_spec {t : TreeTable} (h : t.Inv cmp) (m : Mem) (hm : 0 < m.live) :
+theorem removeLast_spec {t : TreeTable} (h : t.Inv cmp) (m : Mem) (hm : 0 < liveOf m t.triple) :
     (t.removeLast m).1 = (opRemoveLast t.abs).1 ∧ (t.removeLast m).2.1 = (opRemoveLast t.abs).2.1 ∧
     (t.removeLast m).2.2.1.abs = (opRemoveLast t.abs).2.2 ∧ (t.removeLast m).2.2.1.Inv cmp ∧
     ((t.removeLast m).1 ≠ .ok → (t.removeLast m).2.2.1 = t ∧ (t.removeLast m).2.2.2 = m) ∧
     (t.removeLast m).2.2.2.fault = m.fault ∧
-    (t.removeLast m).2.2.2.live + t.size = m.live + (t.removeLast m).2.2.1.size := by
+    liveOf (t.removeLast m).2.2.2 t.triple + t.size = liveOf m t.triple + (t.removeLast m).2.2.1.size ∧
+    (t.removeLast m).2.2.1.triple = t.triple := by
   have hsz := h.size_eq
   obtain ⟨hb, hrb, hsz0⟩ := h
   have hmax := maxEntry_eq t.root
   have hd := toList_delMax t.root
-  have hf := free_spec m hm
+  have hf := freeT_spec m t.triple hm
   unfold abs at hsz
   unfold removeLast opRemoveLast abs
   cases hl : t.root.toList.getLast? with
@@ -263,7 +289,7 @@ theorem removeLast_spec {t : TreeTable} (h : t.Inv cmp) (m : Mem) (hm : 0 < m.li
     rw [hnil] at hsz
     simp only [List.length_nil] at hsz
     simp only [hsz, if_true]
-    exact ⟨by triv, by triv, by triv, ⟨hb, hrb, hsz0⟩, fun _ => ⟨by triv, by triv⟩, by triv, by triv⟩
+    exact ⟨by triv, by triv, by triv, ⟨hb, hrb, hsz0⟩, fun _ => ⟨by triv, by triv⟩, by triv, by triv, by triv⟩
   | some e =>
     have hne : t.root.toList ≠ [] := by intro hn; rw [hn] at hl; simp at hl
     have hpos : 0 < t.root.toList.length := List.length_pos_iff.2 hne
@@ -273,45 +299,69 @@ theorem removeLast_spec {t : TreeTable} (h : t.Inv cmp) (m : Mem) (hm : 0 < m.li
     refine ⟨by triv, by triv, by rw [toList_blacken, hd], ⟨?_, RB_delMax t.root hrb, ?_⟩, fun x => absurd rfl x, hf.2, ?_⟩
     · show Sorted cmp _; rw [toList_blacken, hd]; exact sorted_dropLast hb
     · show t.size - 1 = _; rw [size_eq_length, toList_blacken, hd, List.length_dropLast]; omega
-    · show m.free.live + t.size = m.live + (t.size - 1); rw [hf.1]; omega
+    · refine ⟨?_, by triv⟩
+      show liveOf (m.freeT t.triple) t.triple + t.size = liveOf m t.triple + (t.size - 1); rw [hf.1]; omega
 
-theorem removeAll_spec {t : TreeTable} (h : t.Inv cmp) (m : Mem) (hm : t.size ≤ m.live) :
+theorem removeAll_spec {t : TreeTable} (h : t.Inv cmp) (m : Mem) (hm : t.size ≤ liveOf m t.triple) :
     (t.removeAll m).1.abs = [] ∧ (t.removeAll m).1.Inv cmp ∧ (t.removeAll m).2.fault = m.fault ∧
-    (t.removeAll m).2.live + t.size = m.live + (t.removeAll m).1.size := by
-  have := freeN_spec t.root.size m (by rw [← h.2.2]; exact hm)
+    liveOf (t.removeAll m).2 t.triple + t.size = liveOf m t.triple + (t.removeAll m).1.size := by
+  have := freeN_spec t.root.size m t.triple (by rw [← h.2.2]; exact hm)
   unfold removeAll
   refine ⟨rfl, ⟨List.Pairwise.nil, ⟨trivial, rfl⟩, rfl⟩, this.2, ?_⟩
-  show (freeN m t.root.size).live + t.size = m.live + 0
+  show liveOf (freeN m t.triple t.root.size) t.triple + t.size = liveOf m t.triple + 0
   rw [this.1, ← h.2.2]; omega
 
 /-! ### the per-call bundle -/
+/-- ledger consistency: the ledger of the table's allocator triple holds at least the blocks the
+table owns (one per entry, the sentinel, the header).  Established by the constructor
+(`C03.new_inv`), preserved by every call (`StepOK.owns`). -/
+def Owns (t : TreeTable) (m : Mem) : Prop := t.size + 2 ≤ liveOf m t.triple
+
 /-- what one call guarantees (see `step_ok`) -/
 structure StepOK (cmp : Nat → Nat → Int) (t : TreeTable) (op : Op) (m : Mem) : Prop where
-  /-- same status, out-value and callback sequence as the ideal ordered map -/
-  out    : (t.step cmp op m).1 = (OrdMap.step cmp t.abs op (!m.alloc.1)).1
+  /-- same status, out-value and callback sequence as the ideal ordered map, which is told whether the
+  allocator refuses this call's request -/
+  out    : (t.step cmp op m).1 = (OrdMap.step cmp t.abs op (!(m.allocT t.triple).1)).1
   /-- the abstraction commutes -/
-  abs    : (t.step cmp op m).2.1.abs = (OrdMap.step cmp t.abs op (!m.alloc.1)).2
+  abs    : (t.step cmp op m).2.1.abs = (OrdMap.step cmp t.abs op (!(m.allocT t.triple).1)).2
   /-- BST order, red-black rules and the size field are preserved -/
   inv    : (t.step cmp op m).2.1.Inv cmp
+  /-- the table keeps its allocator triple -/
+  triple : (t.step cmp op m).2.1.triple = t.triple
   /-- C16: a call that reports an error leaves the whole table untouched; unless the error is a
   refused allocation it leaves the ledger untouched as well -/
   inert  : ∀ st, (t.step cmp op m).1.st = some st → st ≠ .ok →
              (t.step cmp op m).2.1 = t ∧ (st ≠ .errAlloc → (t.step cmp op m).2.2.1 = m)
   /-- no freed-too-often block, no access through a dangling link -/
   nofault : (t.step cmp op m).2.2.1.fault = m.fault
-  /-- C06/C08: live blocks move exactly with the number of entries (also when the allocator refuses) -/
-  ledger : (t.step cmp op m).2.2.1.live + t.size = m.live + (t.step cmp op m).2.1.size
+  /-- C06/C08: the live blocks of the table's triple move exactly with the number of entries (also
+  when the allocator refuses) -/
+  ledger : liveOf (t.step cmp op m).2.2.1 t.triple + t.size = liveOf m t.triple + (t.step cmp op m).2.1.size
+  /-- ledger consistency is preserved -/
+  owns   : Owns (t.step cmp op m).2.1 (t.step cmp op m).2.2.1
   /-- C17: comparator calls of this call, `n` = number of keys before the call -/
   cmps   : (t.step cmp op m).2.2.2 ≤ 2 * Nat.log2 (t.size + 1) + 2
 
 theorem step_ok (ho : TotalOrder cmp) {t : TreeTable} (h : t.Inv cmp) (op : Op) (m : Mem)
-    (hm : t.size + 2 ≤ m.live) : StepOK cmp t op m := by
+    (hm : Owns t m) : StepOK cmp t op m := by
+  unfold Owns at hm
+  -- everything except `owns`, which follows from `triple` and `ledger`
+  suffices H : (t.step cmp op m).1 = (OrdMap.step cmp t.abs op (!(m.allocT t.triple).1)).1 ∧
+      (t.step cmp op m).2.1.abs = (OrdMap.step cmp t.abs op (!(m.allocT t.triple).1)).2 ∧
+      (t.step cmp op m).2.1.Inv cmp ∧ (t.step cmp op m).2.1.triple = t.triple ∧
+      (∀ st, (t.step cmp op m).1.st = some st → st ≠ .ok →
+         (t.step cmp op m).2.1 = t ∧ (st ≠ .errAlloc → (t.step cmp op m).2.2.1 = m)) ∧
+      (t.step cmp op m).2.2.1.fault = m.fault ∧
+      liveOf (t.step cmp op m).2.2.1 t.triple + t.size = liveOf m t.triple + (t.step cmp op m).2.1.size ∧
+      (t.step cmp op m).2.2.2 ≤ 2 * Nat.log2 (t.size + 1) + 2 by
+    obtain ⟨a, b, c, d, e, f, g, i⟩ := H
+    exact ⟨a, b, c, d, e, f, g, by unfold Owns; rw [d]; omega, i⟩
   cases op with
   | add k v =>
-    obtain ⟨a, b, c, d, e, f, g⟩ := add_spec ho h k v m
-    have hr : (!contains t.abs k && !m.alloc.1) = true ∨ (!contains t.abs k && !m.alloc.1) = false := by
-      cases (!contains t.abs k && !m.alloc.1) <;> simp
-    refine ⟨?_, ?_, c, ?_, e, f, by simp only [step]; omega⟩
+    obtain ⟨a, b, c, d, e, f, g, i⟩ := add_spec ho h k v m
+    have hr : (!contains t.abs k && !(m.allocT t.triple).1) = true ∨ (!contains t.abs k && !(m.allocT t.triple).1) = false := by
+      cases (!contains t.abs k && !(m.allocT t.triple).1) <;> simp
+    refine ⟨?_, ?_, c, i, ?_, e, f, by simp only [step]; omega⟩
     · simp only [step, OrdMap.step, a]; rcases hr with hr | hr <;> simp [hr]
     · simp only [step, OrdMap.step, b]; rcases hr with hr | hr <;> simp [hr]
     · intro st hst hne
@@ -322,33 +372,30 @@ theorem step_ok (ho : TotalOrder cmp) {t : TreeTable} (h : t.Inv cmp) (op : Op) 
       · rw [a, hr] at hst; simp at hst; exact absurd hst.symm hne
   | get k =>
     obtain ⟨a, b, c⟩ := get_spec ho h k
-    refine ⟨?_, rfl, h, fun _ _ _ => ⟨rfl, fun _ => rfl⟩, rfl, rfl, by simp only [step]; omega⟩
-    simp only [step, OrdMap.step, a, b]
+    exact ⟨(by simp only [step, OrdMap.step, a, b]), rfl, h, rfl, fun _ _ _ => ⟨rfl, fun _ => rfl⟩, rfl, rfl, (by simp only [step]; omega)⟩
   | containsKey k =>
     obtain ⟨a, c⟩ := containsKey_spec ho h k
-    refine ⟨?_, rfl, h, fun _ _ _ => ⟨rfl, fun _ => rfl⟩, rfl, rfl, by simp only [step]; omega⟩
-    simp only [step, OrdMap.step, a]
-  | containsValue v =>
-    exact ⟨rfl, rfl, h, fun _ _ _ => ⟨rfl, fun _ => rfl⟩, rfl, rfl, by simp only [step]; omega⟩
+    exact ⟨(by simp only [step, OrdMap.step, a]), rfl, h, rfl, fun _ _ _ => ⟨rfl, fun _ => rfl⟩, rfl, rfl, (by simp only [step]; omega)⟩
+  | containsValue v => exact ⟨rfl, rfl, h, rfl, fun _ _ _ => ⟨rfl, fun _ => rfl⟩, rfl, rfl, (by simp only [step]; omega)⟩
   | remove k =>
-    obtain ⟨a, b, c, d, e, f, g, i⟩ := remove_spec ho h k m (by omega)
-    refine ⟨?_, c, d, ?_, f, g, by simp only [step]; omega⟩
+    obtain ⟨a, b, c, d, e, f, g, i, j⟩ := remove_spec ho h k m (by omega)
+    refine ⟨?_, c, d, j, ?_, f, g, by simp only [step]; omega⟩
     · simp only [step, OrdMap.step, a, b]
     · intro st hst hne
       simp only [step, Option.some.injEq] at hst
       have := e (by rw [hst]; exact hne)
       exact ⟨this.1, fun _ => this.2⟩
   | removeFirst =>
-    obtain ⟨a, b, c, d, e, f, g⟩ := removeFirst_spec h m (by omega)
-    refine ⟨?_, c, d, ?_, f, g, by simp only [step]; omega⟩
+    obtain ⟨a, b, c, d, e, f, g, j⟩ := removeFirst_spec h m (by omega)
+    refine ⟨?_, c, d, j, ?_, f, g, by simp only [step]; omega⟩
     · simp only [step, OrdMap.step, a, b]
     · intro st hst hne
       simp only [step, Option.some.injEq] at hst
       have := e (by rw [hst]; exact hne)
       exact ⟨this.1, fun _ => this.2⟩
   | removeLast =>
-    obtain ⟨a, b, c, d, e, f, g⟩ := removeLast_spec h m (by omega)
-    refine ⟨?_, c, d, ?_, f, g, by simp only [step]; omega⟩
+    obtain ⟨a, b, c, d, e, f, g, j⟩ := removeLast_spec h m (by omega)
+    refine ⟨?_, c, d, j, ?_, f, g, by simp only [step]; omega⟩
     · simp only [step, OrdMap.step, a, b]
     · intro st hst hne
       simp only [step, Option.some.injEq] at hst
@@ -356,32 +403,18 @@ theorem step_ok (ho : TotalOrder cmp) {t : TreeTable} (h : t.Inv cmp) (op : Op) 
       exact ⟨this.1, fun _ => this.2⟩
   | removeAll =>
     obtain ⟨a, b, c, d⟩ := removeAll_spec h m (by omega)
-    exact ⟨rfl, a, b, fun st hst => by simp [step] at hst, c, d, by simp only [step]; omega⟩
-  | firstKey =>
-    refine ⟨?_, rfl, h, fun _ _ _ => ⟨rfl, fun _ => rfl⟩, rfl, rfl, by simp only [step]; omega⟩
-    simp only [step, OrdMap.step, firstKey_spec]
-  | lastKey =>
-    refine ⟨?_, rfl, h, fun _ _ _ => ⟨rfl, fun _ => rfl⟩, rfl, rfl, by simp only [step]; omega⟩
-    simp only [step, OrdMap.step, lastKey_spec]
-  | firstValue =>
-    refine ⟨?_, rfl, h, fun _ _ _ => ⟨rfl, fun _ => rfl⟩, rfl, rfl, by simp only [step]; omega⟩
-    simp only [step, OrdMap.step, firstValue_spec]
-  | lastValue =>
-    refine ⟨?_, rfl, h, fun _ _ _ => ⟨rfl, fun _ => rfl⟩, rfl, rfl, by simp only [step]; omega⟩
-    simp only [step, OrdMap.step, lastValue_spec]
+    exact ⟨rfl, a, b, rfl, fun st hst => by simp [step] at hst, c, d, by simp only [step]; omega⟩
+  | firstKey => exact ⟨(by simp only [step, OrdMap.step, firstKey_spec]), rfl, h, rfl, fun _ _ _ => ⟨rfl, fun _ => rfl⟩, rfl, rfl, (by simp only [step]; omega)⟩
+  | lastKey => exact ⟨(by simp only [step, OrdMap.step, lastKey_spec]), rfl, h, rfl, fun _ _ _ => ⟨rfl, fun _ => rfl⟩, rfl, rfl, (by simp only [step]; omega)⟩
+  | firstValue => exact ⟨(by simp only [step, OrdMap.step, firstValue_spec]), rfl, h, rfl, fun _ _ _ => ⟨rfl, fun _ => rfl⟩, rfl, rfl, (by simp only [step]; omega)⟩
+  | lastValue => exact ⟨(by simp only [step, OrdMap.step, lastValue_spec]), rfl, h, rfl, fun _ _ _ => ⟨rfl, fun _ => rfl⟩, rfl, rfl, (by simp only [step]; omega)⟩
   | greaterThan k =>
     obtain ⟨a, b, c⟩ := greaterThan_spec ho h k
-    refine ⟨?_, rfl, h, fun _ _ _ => ⟨rfl, fun _ => rfl⟩, rfl, rfl, by simp only [step]; omega⟩
-    simp only [step, OrdMap.step, a, b]
+    exact ⟨(by simp only [step, OrdMap.step, a, b]), rfl, h, rfl, fun _ _ _ => ⟨rfl, fun _ => rfl⟩, rfl, rfl, (by simp only [step]; omega)⟩
   | lesserThan k =>
     obtain ⟨a, b, c⟩ := lesserThan_spec ho h k
-    refine ⟨?_, rfl, h, fun _ _ _ => ⟨rfl, fun _ => rfl⟩, rfl, rfl, by simp only [step]; omega⟩
-    simp only [step, OrdMap.step, a, b]
-  | foreachKey =>
-    exact ⟨rfl, rfl, h, fun _ _ _ => ⟨rfl, fun _ => rfl⟩, rfl, rfl, by simp only [step]; omega⟩
-  | foreachValue =>
-    exact ⟨rfl, rfl, h, fun _ _ _ => ⟨rfl, fun _ => rfl⟩, rfl, rfl, by simp only [step]; omega⟩
-  | size =>
-    refine ⟨?_, rfl, h, fun _ _ _ => ⟨rfl, fun _ => rfl⟩, rfl, rfl, by simp only [step]; omega⟩
-    simp only [step, OrdMap.step, h.size_eq]
+    exact ⟨(by simp only [step, OrdMap.step, a, b]), rfl, h, rfl, fun _ _ _ => ⟨rfl, fun _ => rfl⟩, rfl, rfl, (by simp only [step]; omega)⟩
+  | foreachKey => exact ⟨rfl, rfl, h, rfl, fun _ _ _ => ⟨rfl, fun _ => rfl⟩, rfl, rfl, (by simp only [step]; omega)⟩
+  | foreachValue => exact ⟨rfl, rfl, h, rfl, fun _ _ _ => ⟨rfl, fun _ => rfl⟩, rfl, rfl, (by simp only [step]; omega)⟩
+  | size => exact ⟨(by simp only [step, OrdMap.step, h.size_eq]), rfl, h, rfl, fun _ _ _ => ⟨rfl, fun _ => rfl⟩, rfl, rfl, (by simp only [step]; omega)⟩
 end CC.TreeTable
